@@ -257,6 +257,37 @@ def mapListNoSwap (b : List Stmt) (s : Store) (l : Ref) (inplace : Bool) : Store
   let p := mapCalls b s (s.lst l) inplace
   p.1.allocLst p.2
 
+/-! ### `map_neuronlist(..., parallel=True)`: jobs in a worker pool, and the decorator's forced `inplace=True`
+
+`NeuronProcessor.__call__` runs one job per member.  With a worker pool every job acts on a PICKLED copy of its neuron
+(`TreeNeuron.__getstate__` drops both graphs: the stale branch of `copyObj`) and its result is what comes back; the serial loop
+calls the function on the member itself.  `map_neuronlist` relies on this: "If we use parallel processing it makes sense to modify
+neurons inplace since they will be copied into the child processes anyway" — `if parallel and "inplace" in sig.parameters:
+kwargs["inplace"] = True`.  `forced` is that statement, `pooled` says whether a job that was asked to run in parallel really runs
+in the pool. -/
+
+/-- one job: in a worker (on a pickled copy) or in the calling process (on the member itself) -/
+def runJob (b : List Stmt) (s : Store) (x : Ref) (ip pooled : Bool) : Store × Ref :=
+  if pooled then
+    let p := copyObj s x true            -- the worker's unpickled argument
+    call b p.1 p.2 ip
+  else call b s x ip
+
+def parCalls (b : List Stmt) (s : Store) : List Ref → Bool → Bool → Store × List Ref
+  | [], _, _ => (s, [])
+  | x :: xs, ip, pooled =>
+    let p := runJob b s x ip pooled
+    let q := parCalls b p.1 xs ip pooled
+    (q.1, p.2 :: q.2)
+
+/-- the `map_neuronlist` wrapper with its `parallel` handling: the jobs get `inplace=True` when `parallel` and `forced`;
+`res = proc(nl, …)`; `if inplace: nl.neurons = res.neurons else: nl = res`, with the CALLER's `inplace`. -/
+def mapListPar (b : List Stmt) (s : Store) (l : Ref) (inplace parallel forced pooled : Bool) : Store × Ref :=
+  let ipJob := if parallel && forced then true else inplace
+  let p := parCalls b s (s.lst l) ipJob (parallel && pooled)
+  let q := p.1.allocLst p.2
+  if inplace then (q.1.setLst l (q.1.lst q.2), l) else q
+
 /-- `NeuronList.__add__(neuron)`: `self.__class__(self.neurons + [other])` — a new list object. -/
 def listAdd (s : Store) (l : Ref) (o : Ref) : Store × Ref := s.allocLst (s.lst l ++ [o])
 
